@@ -439,7 +439,7 @@ package fsm
 //@   results ok, err
 //@   requires *reader != nil && cmpWF(*cmp) && *keyBuf != nil && (*keyBuf).slen == 0
 //@   ensures [C02.cmp.one]   err == nil ==> ok == holdsSingle((*reader).vP, (*reader).vV, *cmp)
-//@   ensures [C02.cmp.reuse] err == nil && ok ==> (*keyBuf).slen == 0
+//@   ensures [C02.cmp.reuse+C12] err == nil && ok ==> (*keyBuf).slen == 0
 //@   modifies (*keyBuf).slen, (*keyBuf).sdata, (*keyBuf).nmsg, (*keyBuf).msg
 
 // conjunction of the predicates against ONE view
@@ -568,7 +568,7 @@ package fsm
 //@   before writeCommand assert bytesOf(key) == btail(iter.cur, 5)
 //@   before writeCommand assert bytesOf(val) == iter.vV[iter.cur]
 //@   modifies w.sdata, w.slen, w.nmsg, w.msg
-//@   loop 0 invariant iter != nil && fresh(iter) && iter.bounded && iter.vP == reader.vP && iter.vV == reader.vV && iter.lo == bytes_empty() && iter.hi == Btop()
+//@   loop 0 invariant [C07.capture.whole+C12] iter != nil && fresh(iter) && iter.bounded && iter.vP == reader.vP && iter.vV == reader.vV && iter.lo == bytes_empty() && iter.hi == Btop()
 //@   loop 0 invariant 0 <= iter.pos && iter.pos <= cnt(iter.vP, iter.lo, iter.hi) && iter.onKey == (iter.pos < cnt(iter.vP, iter.lo, iter.hi)) && (iter.onKey ==> iter.cur == nth(iter.vP, iter.lo, iter.hi, iter.pos))
 //@   loop 0 invariant w.nmsg >= old(w.nmsg) && reader.vP == old(reader.vP) && reader.vV == old(reader.vV)
 //@   loop 0 invariant isNilSlice(buffer) || fresh(buffer)
@@ -592,9 +592,10 @@ package fsm
 //@   ghostset seq.sreq = req
 //@   ensures [C09.iterate.stream] err == nil ==> seq != nil && seq.sreader == reader && seq.sreq == req
 //@   modifies nothing
+//@ ghostfield any.oneShot Bool
 //@ func iter.From[*regattapb.ResponseOp_Range]
 //@   assumed
-//@   ensures result != nil && fresh(result)
+//@   ensures result != nil && fresh(result) && result.oneShot      // a materialised stream: the elements were computed before it was built
 //@   modifies nothing
 //@ func iter.First[*regattapb.ResponseOp_Range]
 //@   assumed
@@ -606,6 +607,8 @@ package fsm
 //@   requires reader != nil && req != nil
 //@   before iter.From[*regattapb.ResponseOp_Range] assert [C09.iter.single] isNilSlice(req.RangeEnd)
 //@   ensures [C09.iter.dispatch] err == nil && !isNilSlice(req.RangeEnd) ==> seq != nil && seq.sreader == reader && seq.sreq == req
+// a single-key read is evaluated NOW (no reader is kept for later: nothing can outlive a snapshot install)
+//@   ensures [C08.iter.single.eager] err == nil && isNilSlice(req.RangeEnd) ==> seq != nil && seq.oneShot
 //@   modifies nothing
 // the unary read takes the first chunk of that same stream
 //@ func rangeLookup#first
